@@ -163,6 +163,33 @@ Theorem C15_cli_put_verified : forall H zcomp zdecomp o files r rs s',
 Proof. exact cli_put_verified. Qed.
 Print Assumptions C15_cli_put_verified.
 
+(* ---------- request histories: the servers are stateless ----------
+   [chunk_history c s rs] / [index_history c d rs] answer the requests rs one after the other, each
+   against the store the previous ones left; the handlers keep nothing else between requests. *)
+
+(* In ANY history every request that does not carry the configured value is answered 401 --
+   whatever was requested before it and by whom (an authorized GET of the same object included). *)
+Theorem C15_history_auth_gate :
+  forall H zcomp zdecomp (index_t : Type) (idx_decode : bytes -> option index_t) idx_encode c rs,
+  c_auth c <> [] ->
+  (forall s, Forall2 (fun r a => r_auth r <> c_auth c -> a = resp 401 [])
+                     rs (fst (chunk_history H zcomp zdecomp c s rs))) /\
+  (forall d, Forall2 (fun r a => r_auth r <> c_auth c -> a = resp 401 [])
+                     rs (fst (index_history index_t idx_decode idx_encode c d rs))).
+Proof. intros. split; intros; [now apply chunk_history_auth|now apply index_history_auth]. Qed.
+Print Assumptions C15_history_auth_gate.
+
+(* On a read-only server every request of a history is answered exactly as if it were the only
+   request ever sent, and the store is what it was. *)
+Theorem C15_history_stateless :
+  forall H zcomp zdecomp (index_t : Type) (idx_decode : bytes -> option index_t) idx_encode c rs,
+  c_writable c = false ->
+  (forall s, chunk_history H zcomp zdecomp c s rs = (map (fun r => fst (chunk_handle H zcomp zdecomp c s r)) rs, s)) /\
+  (forall d, index_history index_t idx_decode idx_encode c d rs =
+             (map (fun r => fst (index_handle index_t idx_decode idx_encode c d r)) rs, d)).
+Proof. intros. split; intros; [now apply chunk_history_readonly|now apply index_history_readonly]. Qed.
+Print Assumptions C15_history_stateless.
+
 (* The two Go standard-library facts the confinement rests on, for every byte string. *)
 Theorem C15_clean_idempotent : forall p, clean (clean p) = clean p.
 Proof. exact clean_idempotent. Qed.
